@@ -94,7 +94,7 @@ func (w *world) afterServiceHandler(inc *incarnation, name string, svc *v1.Servi
 				// the address recorded in the status shown to the handler is adopted, not chosen
 				w.stat("probe.recorded-address-adopted")
 				msg = cfg.CheckAssignmentStatic(key, post[key].Svc, post[key].IPs)
-			} else if svc != nil && isCompletion(statusAddrs(svc), post[key].IPs) && isCompletion(pre[key].IPs, post[key].IPs) {
+			} else if svc != nil && isCompletion(statusAddrs(svc), post[key].IPs) {
 				// PreferDualStack completion: the pool is given by the address already held
 				w.stat("probe.prefer-dual-completion")
 				msg = cfg.CheckAssignmentStatic(key, post[key].Svc, post[key].IPs)
@@ -310,8 +310,13 @@ func (w *world) checkStatusStability(key string, written *v1.Service) {
 // unless the two may share it.
 func (w *world) checkStealOnWrite(key string, svc *v1.Service) {
 	inc := w.inc
-	if !w.env.On("C06") || inc.cfgInForce == nil {
+	if !(w.env.On("C06") || w.env.On("C03")) || inc.cfgInForce == nil {
 		return
+	}
+	prop, inv := "C06", "status-write-steals-recorded-address"
+	if !w.env.On("C06") {
+		// for C03 the same event means: the other service is about to lose a still-admissible address
+		prop, inv = "C03", "recorded-address-given-to-another-service"
 	}
 	cur := w.getSvc(key)
 	if cur == nil {
@@ -336,11 +341,8 @@ func (w *world) checkStealOnWrite(key string, svc *v1.Service) {
 					holds = true
 				}
 			}
-			if !holds || !w.managed(other) || other.Spec.Type != v1.ServiceTypeLoadBalancer {
+			if !holds {
 				continue
-			}
-			if inc.cfgInForce.CheckAssignmentStatic(ok, other, statusAddrs(other)) != "" {
-				continue // the other record is not admissible any more
 			}
 			view := other
 			if seen := inc.lastSeen[ok]; seen != nil {
@@ -349,12 +351,18 @@ func (w *world) checkStealOnWrite(key string, svc *v1.Service) {
 					continue // this incarnation itself moved the other service meanwhile
 				}
 			}
+			if !w.managed(view) || view.Spec.Type != v1.ServiceTypeLoadBalancer {
+				continue
+			}
+			if inc.cfgInForce.CheckAssignmentStatic(ok, view, statusAddrs(other)) != "" {
+				continue // the other record is not admissible any more
+			}
 			if !specalloc.MayShare(svc, view) {
 				sig := ""
 				if inc.curSeen != nil && len(statusAddrs(inc.curSeen)) > 0 {
 					sig = "C06/restart-steal-by-service-whose-own-record-is-replaced"
 				}
-				w.violate("C06", "status-write-steals-recorded-address", sig, fmt.Sprintf("incarnation %d writes %s to %s while %s has it recorded (still admissible) and they may not share (%s / %s)", inc.id, a, key, ok, specalloc.Describe(svc), specalloc.Describe(view)))
+				w.violate(prop, inv, sig, fmt.Sprintf("incarnation %d writes %s to %s while %s has it recorded (still admissible) and they may not share (%s / %s)", inc.id, a, key, ok, specalloc.Describe(svc), specalloc.Describe(view)))
 			}
 		}
 	}
